@@ -12,6 +12,7 @@ import (
 	"fmt"
 	"net"
 	"os"
+	"strings"
 	"sync"
 	"sync/atomic"
 	"time"
@@ -51,13 +52,13 @@ type live struct {
 	addr      string
 	rec       *recorder
 	mu        sync.Mutex
-	evs       []*liveEventer                        // accept order
-	conns     map[any]int                           // connection pointer (hooks) -> index
-	newConn   chan int                              // signalled when a connection's writer started (first hook)
-	gate      func(c int, point string, args []any) // optional scheduler gate (steering)
-	cmds      sync.Map                              // *service.ActiveMessage -> caller id
-	readHold  func(c int, m *service.Message)       // optional: runs inside the read callback
-	replyHold func(c int, serial int)               // optional: runs at W.reply.before
+	evs       []*liveEventer                                        // accept order
+	conns     map[any]int                                           // connection pointer (hooks) -> index
+	newConn   chan int                                              // signalled when a connection's writer started (first hook)
+	gate      atomic.Pointer[func(c int, point string, args []any)] // optional scheduler gate (steering)
+	cmds      sync.Map                                              // *service.ActiveMessage -> caller id
+	readHold  func(c int, m *service.Message)                       // optional: runs inside the read callback
+	replyHold func(c int, serial int)                               // optional: runs at W.reply.before
 }
 
 type liveEventer struct {
@@ -106,6 +107,12 @@ func errKind(err error) string {
 	case errors.Is(err, service.ErrWriteDataOverTime):
 		return "timeout"
 	case errors.Is(err, service.ErrWriteDataFail):
+		switch {
+		case strings.Contains(err.Error(), "connection closed"):
+			return "closed" // the connection stopped with the command outstanding or queued
+		case strings.Contains(err.Error(), "too many pending"):
+			return "busy" // the terminal's command queue is full
+		}
 		return "writefail"
 	case errors.Is(err, service.ErrNotExistKey):
 		return "notexist"
@@ -168,6 +175,8 @@ func (l *live) hook(conn any, point string, args []any) {
 		if ok, _ := args[0].(bool); ok {
 			l.rec.log(c, "W", "w_reissue")
 		}
+	case "W.stop":
+		l.rec.log(c, "W", "w_stop")
 	case "W.exit":
 		l.rec.log(c, "W", "w_exit")
 	case "S.begin", "S.left", "S.stopClosed", "S.connClosed", "S.chansClosed":
@@ -181,8 +190,8 @@ func (l *live) hook(conn any, point string, args []any) {
 	case "T.fire", "T.checked", "T.sent":
 		l.rec.log(c, "T", point, "seq", int(args[0].(uint16)))
 	}
-	if l.gate != nil {
-		l.gate(c, point, args)
+	if g := l.gate.Load(); g != nil {
+		(*g)(c, point, args)
 	}
 }
 
